@@ -309,7 +309,8 @@ def lingo_oracle(script, lingo):
         parsed = S.parsed_view(S.parse_lingo(lingo))
     except S.SpecError as e:
         return 'emitted Lingo does not parse: %s' % e
-    want = S.strip_script(script)
+    want = S.same_object(S.strip_script(script))
+    parsed = S.same_object(parsed)
     if parsed != want:
         return 'emitted Lingo denotes a different script: ' + diff_scripts(want, parsed)
     return None
@@ -719,8 +720,13 @@ class GenExt(Gen):
     def idexpr(self, cx):
         r = self.rng
         k = r.random()
-        if k < 0.6:
+        if k < 0.5:
             return ('int', r.choice([1, 2, 5, 12, 48, 120]))
+        if k < 0.6:
+            # a compound identifier: sprite (i + 1), cast (n * 2 - 1), sound (gS)
+            a = ('loc', r.choice(cx['locals'])) if cx['locals'] else ('int', 2)
+            e = ('bin', r.choice(['add', 'sub', 'mul']), a, ('int', r.choice([1, 2, 10])))
+            return e if r.random() < 0.7 else ('bin', 'add', e, ('int', 1))
         if k < 0.8 and cx['locals']:
             return ('loc', r.choice(cx['locals']))
         if k < 0.9 and cx['args']:
